@@ -82,8 +82,46 @@ def explore(problem, depth, max_states=60):
     return list(seen.values()), gas
 
 
+def crafted_nested_invariant(s):
+    """a state invariant that reads one fluent through another (`ok(target)`): the ground fluent the invariant depends on changes with
+    the state, and an action can break the invariant by writing a ground fluent that occurs nowhere in it syntactically"""
+    import random
+    from unified_planning.shortcuts import (Problem, Fluent, InstantaneousAction, UserType, Object, BoolType, IntType, Not, And, Or, Equals)
+    rng = random.Random(s)
+    pr = Problem(f"nested{s}")
+    T = UserType("T")
+    objs = [Object(f"o{i}", T) for i in range(rng.randint(2, 3))]
+    pr.add_objects(objs)
+    positive = rng.random() < 0.5
+    ok = Fluent("ok", BoolType(), x=T)
+    target = Fluent("target", T)
+    cnt = Fluent("cnt", IntType(0, 3))
+    pr.add_fluent(ok, default_initial_value=positive)
+    pr.add_fluent(target, default_initial_value=rng.choice(objs))
+    pr.add_fluent(cnt, default_initial_value=0)
+    inv = ok(target()) if positive else Not(ok(target()))
+    if rng.random() < 0.3:
+        inv = Or(inv, Equals(cnt(), 3))
+    pr.add_state_invariant(inv)
+    brk = InstantaneousAction("brk", x=T)
+    brk.add_effect(ok(brk.x), not positive)
+    if rng.random() < 0.4:
+        brk.add_increase_effect(cnt(), 1)           # touches a bounded fluent as well (re-enables every check)
+    fix = InstantaneousAction("fix", x=T)
+    fix.add_effect(ok(fix.x), positive)
+    ret = InstantaneousAction("retarget", x=T)
+    if rng.random() < 0.5:
+        ret.add_precondition(ok(ret.x) if positive else Not(ok(ret.x)))
+    ret.add_effect(target(), ret.x)
+    for a in (brk, fix, ret):
+        pr.add_action(a)
+    pr.add_goal(ok(objs[-1]) if rng.random() < 0.5 else Not(ok(objs[0])))
+    return pr
+
+
 def problems(seed, count, features=None, need=None):
-    """yields (seed_i, problem) for well-formed generated problems whose initial state is legal"""
+    """yields (seed_i, problem) for well-formed generated problems whose initial state is legal; every eighth problem comes from the
+    crafted family `crafted_nested_invariant` (unless the caller restricts the grammar)"""
     i = 0
     produced = 0
     while produced < count and i < count * 6:
@@ -92,7 +130,10 @@ def problems(seed, count, features=None, need=None):
         try:
             with warnings.catch_warnings():
                 warnings.simplefilter("ignore")
-                pr = Gen(s, features).problem(f"g{s}")
+                if i % 8 == 3 and need is None and not (features or {}).get("no_crafted"):
+                    pr = crafted_nested_invariant(s)
+                else:
+                    pr = Gen(s, features).problem(f"g{s}")
         except Exception:  # noqa
             continue
         try:
